@@ -113,6 +113,15 @@ class CoderState(object):
 
         self.idx_value = 0  # only needed for encoder
 
+        self.reset_template_state()
+
+    # noinspection PyAttributeOutsideInit
+    def reset_template_state(self):
+        """
+        (Re-)initialise everything that is set while walking through the template,
+        i.e. the effects of operator descriptors and the bitmap/back reference
+        bookkeeping. A template always starts from this state.
+        """
         self.nbits_offset = 0  # 201
         self.scale_offset = 0  # 202
 
@@ -152,10 +161,12 @@ class CoderState(object):
         This function is only useful for uncompressed data.
         """
         self.idx_subset = idx_subset
-        # Reset new reference values to empty at start of each subset as anything defined
-        # from previous subset should NOT affect this subset. Also we do not
-        # care about what is defined in previous subset so we are not saving them.
-        self.new_refvals = {}
+        # Each subset is a fresh application of the template. Anything defined
+        # by a previous subset, e.g. new reference values, operators that are
+        # still in effect, bitmaps and back references, should NOT affect this
+        # subset. Also we do not care about what is defined in previous subset
+        # so we are not saving them.
+        self.reset_template_state()
         self.decoded_descriptors = self.decoded_descriptors_all_subsets[idx_subset]
         self.decoded_values = self.decoded_values_all_subsets[idx_subset]
         self.bitmap_links = self.bitmap_links_all_subsets[idx_subset]
